@@ -479,7 +479,8 @@ def enum_calls(spec: Spec, seed: int, dev: int, wide: bool) -> list[tuple]:
 
     Vectors: the base instance and every instance that differs from it in at most ``dev`` fields, each field
     ranging over its whole alphabet.  Styles: P positional (every vector); K keyword, M mixed, PD/KD relying on
-    the default (base vector; with ``wide`` every vector); and malformed calls on the base vector.
+    the default (base vector; with ``wide`` every vector); and malformed calls on the base vector of hook-free
+    flat programs (they only feed statistics: the oracle is one-directional).  The base vector comes first.
     """
     nf = len(spec.fields)
     alpha = [spec.field_values(i) for i in range(nf)]
@@ -507,7 +508,7 @@ def enum_calls(spec: Spec, seed: int, dev: int, wide: bool) -> list[tuple]:
         k = repr((style, args, kwargs))
         if k not in seen:
             seen.add(k)
-            calls.append((style, args, kwargs, valid))
+            calls.append((style, args, kwargs, valid, n == 0))
 
     for n, vec in enumerate(vectors):
         vals = flat(vec)
@@ -519,7 +520,7 @@ def enum_calls(spec: Spec, seed: int, dev: int, wide: bool) -> list[tuple]:
             if spec.default is not None:
                 add("PD", vals[:-1], {})
                 add("KD", [], dict(zip(names[:-1], vals[:-1])))
-        if n == 0:
+        if n == 0 and not spec.hooks and spec.shape == "flat":
             if spec.default is None:
                 add("P-", vals[:-1], {}, False)
             add("P+", [*vals, 0], {}, False)
@@ -553,7 +554,7 @@ def attrs(spec: Spec, obj) -> tuple:  # noqa: ANN001
 
 def run_call(spec: Spec, cls: type, kids: dict, call: tuple) -> dict:
     """construct -> attributes -> pack -> unpack -> attributes; stops at the first stage that raises."""
-    _, a, kw, _ = call
+    a, kw = call[1], call[2]
     r: dict = {}
     try:
         obj = cls(*[mat(x, kids) for x in a], **{k: mat(x, kids) for k, x in kw.items()})
@@ -656,6 +657,8 @@ def evaluate(defn: dict, seed: int, dev: int, wide: bool, only_call: int | None 
             st["nontrivial"] += 1
         compiled_bad = None
         for form, style, cls, kids in forms:
+            if not wide and style not in (None, "typevar") and not call[4]:
+                continue    # quick tier: the extra annotation styles only change format_list; base vector suffices
             got = run_call(spec, cls, kids, call)
             st["form_executions"] += 1
             v = compare(ref, got)
@@ -668,7 +671,7 @@ def evaluate(defn: dict, seed: int, dev: int, wide: bool, only_call: int | None 
             if form == "compiled":
                 compiled_bad = (v[0], exc)
             elif form == "dataclass" and (compiled_bad == (v[0], exc) or
-                                          (v[0] == "construct" and build_failed.get("compiled") == exc)):
+                                          (v[0] == "construct" and "compiled" in build_failed)):
                 # the dataclass form is built on vp_compile: the same failure is the same defect, report it once
                 st["dataclass_failures_also_in_compiled"] += 1
                 continue
@@ -677,7 +680,7 @@ def evaluate(defn: dict, seed: int, dev: int, wide: bool, only_call: int | None 
 
 
 def _call_source(call: tuple) -> str:
-    _, a, kw, _ = call
+    a, kw = call[1], call[2]
     return "P(" + ", ".join([repr(x) for x in a] + [f"{k}={v!r}" for k, v in kw.items()]) + ")"
 
 
